@@ -33,6 +33,8 @@ type splitCase struct {
 	Mem    int      `json:"mem"`
 	// Again: further targets generated afterwards from the SAME builder (a history of Read* calls)
 	Again []sTarget `json:"again"`
+	// Fluent: build the fields through the builder's fluent API (b.Uint16(addr).UnitID(..)...) instead of AddAll
+	Fluent bool `json:"fluent"`
 }
 
 func toField(f sField) modbus.Field {
@@ -51,6 +53,55 @@ func fromFields(fs modbus.Fields) []sField {
 		r = append(r, fromField(f))
 	}
 	return r
+}
+
+// fluentField creates the field through the builder's typed constructor (nil when there is none for the type)
+func fluentField(b *modbus.Builder, f sField) *modbus.BField {
+	a := uint16(f.Addr)
+	var bf *modbus.BField
+	switch modbus.FieldType(f.Type) {
+	case modbus.FieldTypeBit:
+		bf = b.Bit(a, uint8(f.Bit))
+	case modbus.FieldTypeByte:
+		bf = b.Byte(a, f.High != 0)
+	case modbus.FieldTypeUint8:
+		bf = b.Uint8(a, f.High != 0)
+	case modbus.FieldTypeInt8:
+		bf = b.Int8(a, f.High != 0)
+	case modbus.FieldTypeUint16:
+		bf = b.Uint16(a)
+	case modbus.FieldTypeInt16:
+		bf = b.Int16(a)
+	case modbus.FieldTypeUint32:
+		bf = b.Uint32(a)
+	case modbus.FieldTypeInt32:
+		bf = b.Int32(a)
+	case modbus.FieldTypeUint64:
+		bf = b.Uint64(a)
+	case modbus.FieldTypeInt64:
+		bf = b.Int64(a)
+	case modbus.FieldTypeFloat32:
+		bf = b.Float32(a)
+	case modbus.FieldTypeFloat64:
+		bf = b.Float64(a)
+	case modbus.FieldTypeString:
+		bf = b.String(a, uint8(f.Len))
+	case modbus.FieldTypeCoil:
+		bf = b.Coil(a)
+	default:
+		return nil
+	}
+	// the typed constructors do not take these attributes: they are part of the definition under test
+	if modbus.FieldType(f.Type) != modbus.FieldTypeBit && f.Bit != 0 {
+		bf.Field.Bit = uint8(f.Bit)
+	}
+	if f.High != 0 {
+		bf.Field.FromHighByte = true
+	}
+	if modbus.FieldType(f.Type) != modbus.FieldTypeString && f.Len != 0 {
+		bf.Field.Length = uint8(f.Len)
+	}
+	return bf
 }
 
 func doSplit(b *modbus.Builder, t sTarget) ([]modbus.BuilderRequest, error) {
@@ -128,7 +179,26 @@ func driveSplit(w *writer) error {
 		for _, f := range c.Fields {
 			fs = append(fs, toField(f))
 		}
-		b.AddAll(fs)
+		if c.Fluent && len(c.Fields) > 0 {
+			// defaults of the builder = the first field's target; every other field sets its own
+			b = modbus.NewRequestBuilder(c.Fields[0].Server, uint8(c.Fields[0].Unit))
+			for i, f := range c.Fields {
+				bf := fluentField(b, f)
+				if bf == nil {
+					b.AddAll(modbus.Fields{toField(f)}) // not expressible through the fluent API (invalid type)
+					continue
+				}
+				if i > 0 || f.Server != c.Fields[0].Server {
+					bf = bf.ServerAddress(f.Server)
+				}
+				if i > 0 || f.Unit != c.Fields[0].Unit {
+					bf = bf.UnitID(uint8(f.Unit))
+				}
+				b.Add(bf.ByteOrder(packet.ByteOrder(f.Order)).Name(f.Name))
+			}
+		} else {
+			b.AddAll(fs)
+		}
 		all := append([]sTarget{c.Target}, c.Again...)
 		for i, t := range all {
 			splitOnce(w, &c, b, t, all[:i])
@@ -141,7 +211,7 @@ func driveSplit(w *writer) error {
 // device / parse / extract chain on every produced request.  The event always carries the ORIGINAL field list.
 func splitOnce(w *writer, c *splitCase, b *modbus.Builder, target sTarget, hist []sTarget) {
 	{
-		e := Ev{"ev": "split", "target": target, "fields": c.Fields, "outcome": "", "requests": []Ev{}, "hist": hist}
+		e := Ev{"ev": "split", "target": target, "fields": c.Fields, "outcome": "", "requests": []Ev{}, "hist": hist, "fluent": c.Fluent}
 		if c.Fields == nil {
 			e["fields"] = []sField{}
 		}
@@ -200,7 +270,7 @@ func splitOnce(w *writer, c *splitCase, b *modbus.Builder, target sTarget, hist 
 				}
 				for _, mode := range []string{"strict", "lenient"} {
 					x := Ev{"ev": "extract", "target": target, "mem": c.Mem, "req": d, "mode": mode, "truncBy": tr, "response": ints(respBytes),
-						"parsed": "", "outcome": "", "hadErr": false, "values": []Ev{}, "hist": hist}
+						"parsed": "", "outcome": "", "hadErr": false, "values": []Ev{}, "hist": hist, "fluent": c.Fluent}
 					func() {
 						defer func() {
 							if p := recover(); p != nil {
